@@ -35,7 +35,9 @@ from . import common as C
 
 ID = "C08"
 DRIVER = "drv_c08"
-GEN = ["extract", "beacon", "c16_unicode", "guardrails", "version", "pestruct"]
+GEN = ["extract", "beacon", "c16_unicode", "guardrails", "version", "pestruct", "py_utils", "py_scan", "py_pe"]
+# the PE entry points translated from their source (Gen/PyPe.lean): "never raises" restated for the translated definitions
+EXTRA_PROP_FILES = ["Props/C08Gen.lean"]
 PE_OPS = ("mz", "arch", "stamps", "mmz", "mpe", "ppa")
 STREAMS = {
     "ff": {"relevant": True, "desc": "BeaconConfig.from_bytes / from_file (BytesIO, OS file) / from_path, default keys"},
